@@ -199,11 +199,12 @@ def replay_file(prop, pid, path, known):
 
 def write_replay(pid, case, check, msg, bucket):
     from vt import core
-    os.makedirs(os.path.join(VERIF, "replays"), exist_ok=True)
+    rdir = os.environ.get("VERIF_REPLAY_DIR") or os.path.join(VERIF, "replays")
+    os.makedirs(rdir, exist_ok=True)
     blob = json.dumps(core.jsonable(case), sort_keys=True)
     h = hashlib.sha1(blob.encode()).hexdigest()[:10]
     name = "%s-%s-%s.json" % (pid, (check or "fail").replace("/", "_")[:40], h)
-    path = os.path.join(VERIF, "replays", name)
+    path = os.path.join(rdir, name)
     with open(path, "w") as f:
         json.dump({"property": pid, "check": check, "bucket": bucket, "msg": msg, "case": core.jsonable(case)}, f,
                   indent=1)
@@ -408,8 +409,9 @@ def parent(args):
         "wall_s": round(wall, 2),
         "violations": len(violations),
     }
-    os.makedirs(os.path.join(VERIF, "evidence"), exist_ok=True)
-    with open(os.path.join(VERIF, "evidence", "%s.json" % pid), "w") as f:
+    edir = os.environ.get("VERIF_EVIDENCE_DIR") or os.path.join(VERIF, "evidence")
+    os.makedirs(edir, exist_ok=True)
+    with open(os.path.join(edir, "%s.json" % pid), "w") as f:
         json.dump(core.jsonable(ev), f, indent=1)
 
     print("%s %s seed=%d: %d evaluations (%d non-trivial, %d distinct non-trivial), worst error/allowance %.3g, "
